@@ -125,7 +125,20 @@ EXACT_DELAYS = [0, 0, 1, 1, 2, 3, 0.5, 0.25, 1.5]
 FLOAT_DELAYS = [0, 0.1, 0.2, 0.3, 0.7, 1.1, 1.73, 2.2, 0.05, 3.3]
 
 
+RATIONAL_DELAYS = ["0", "1/10", "7/10", "1/3", "2/3", "4/5", "1", "3/2", "1/10", "1/5"]
+
+
+def num(d):
+    """a delay / instant of a program: int, float, or "p/q" = an exact fractions.Fraction (programs stay JSON-able)"""
+    if isinstance(d, str):
+        from fractions import Fraction
+        return Fraction(d)
+    return d
+
+
 def gen_delay(rng, flavour):
+    if flavour == "rational":
+        return rng.choice(RATIONAL_DELAYS)
     if flavour == "exact":
         return rng.choice(EXACT_DELAYS)
     if rng.random() < 0.3:
@@ -150,7 +163,7 @@ def gen_cond(rng, prof, flavour, depth, nev, npids):
         else:
             kids.append(["t", gen_delay(rng, flavour)])
     mode = rng.choice(["all", "any"])
-    style = "op" if arity == 2 and rng.random() < 0.5 else rng.choice(["ctor", "ctor", "gen", "iter", "tuple"])
+    style = "op" if arity == 2 and rng.random() < 0.5 else rng.choice(["ctor", "ctor", "gen", "iter", "tuple", "mutlist"])
     return [mode, style, kids]
 
 
@@ -173,7 +186,8 @@ def gen_script(rng, prof, flavour, idx, nscripts, nev, npids_guess):
         elif k == "wait" and nev:
             ops.append(["wait", rng.randrange(nev)])
         elif k == "succeed" and nev:
-            ops.append(["succeed", rng.randrange(nev)] + (["excval"] if rng.random() < 0.08 else ["anyval"] if rng.random() < 0.05 else []))
+            ops.append(["succeed", rng.randrange(nev)] + (["excval"] if rng.random() < 0.08 else ["anyval"] if rng.random() < 0.05
+                                                          else ["listval"] if rng.random() < 0.12 else []))
         elif k == "fail" and nev:
             ops.append(["fail", rng.randrange(nev), rng.choice(["Boom", "Bang", "ValueError", "Boom", "Crit", "StopProcess"])])
         elif k == "spawn" and idx + 1 < nscripts:
@@ -188,6 +202,8 @@ def gen_script(rng, prof, flavour, idx, nscripts, nev, npids_guess):
             ops.append(["interrupt", rng.randrange(max(1, npids_guess))] + (["fwd"] if rng.random() < 0.15 else []))
         elif k == "cb" and nev:
             ops.append(["cb", rng.randrange(nev)])
+        elif k == "ptrigger":
+            ops.append(["ptrigger", rng.randrange(max(1, npids_guess)), rng.choice(["succeed", "fail"])])
         elif k == "cond":
             ops.append(["cond", gen_cond(rng, prof, flavour, 0, nev, npids_guess)])
         elif k == "zero":
@@ -212,12 +228,14 @@ def gen_script(rng, prof, flavour, idx, nscripts, nev, npids_guess):
 
 def gen_program(rng, prof):
     flavour = "exact" if rng.random() < prof.get("p_exact", 0.7) else "float"
+    if rng.random() < prof.get("p_rational", 0.0):
+        flavour = "rational"          # an exact rational clock: delays that are neither int nor float
     ntop = rng.randint(prof.get("min_top", 1), prof.get("max_top", 5))
     nscripts = ntop + rng.randint(0, prof.get("max_child_scripts", 3))
     nev = rng.randint(prof.get("min_ev", 0), prof.get("max_ev", 3))
     guess = ntop + 2
     scripts = [gen_script(rng, prof, flavour, i, nscripts, nev, guess) for i in range(nscripts)]
-    t0 = rng.choice(prof.get("t0", [0]))
+    t0 = rng.choice(prof.get("t0", [0])) if flavour != "rational" else 0
     return {"flavour": flavour, "t0": t0, "nev": nev, "scripts": scripts, "top": list(range(ntop))}
 
 
@@ -300,6 +318,8 @@ class Runner:
         """canonical form of a received value"""
         if isinstance(val, AnyVal):
             return ("anyval",)
+        if isinstance(val, list):
+            return ("list", tuple(self.cv(x) for x in val))
         if val is None or isinstance(val, (int, float, str)):
             return val
         if hasattr(val, "todict") and hasattr(val, "events"):
@@ -343,6 +363,7 @@ class Runner:
         return c
 
     def new_timeout(self, d, ctor=False):
+        d = num(d)
         self.nuid += 1
         label = f"T{self.nuid}"
         if self.mon:
@@ -383,9 +404,18 @@ class Runner:
                 arg = iter(evs)
             elif style == "tuple":
                 arg = tuple(evs)
+            elif style == "mutlist":
+                arg = list(evs)
             else:
                 arg = evs
             c = env.all_of(arg) if mode == "all" else env.any_of(arg)
+            if style == "mutlist":
+                # the caller goes on using its list: the condition's operands are those it was built from
+                if len(arg) % 2 and len(arg) > 1:
+                    arg.pop()
+                else:
+                    arg.append(env.event())          # (never triggered)
+                    arg.reverse()
         self.nuid += 1
         label = f"C{self.nuid}"
         self._name(c, label)
@@ -436,6 +466,8 @@ class Runner:
                                 tgt.succeed(Boom(f"value{pid}.{opi}"))      # an exception object as an ordinary value
                             elif len(op) > 2 and op[2] == "anyval":
                                 tgt.succeed(AnyVal())                       # a value that compares equal to everything
+                            elif len(op) > 2 and op[2] == "listval":
+                                tgt.succeed(["reply-slot", pid, opi])       # a mutable container: waiters get this very object
                             else:
                                 tgt.succeed(f"s{pid}.{opi}")
                         else:
@@ -475,6 +507,31 @@ class Runner:
                     tape.append((env.now, "interrupt", pid, opi, v, cause, res))
                     if mon:
                         mon.interrupt_issued(cause, pid, v, expect_err, res)
+                    continue
+                elif kind == "ptrigger":
+                    # a second trigger attempt on a process event that has ended (returned or crashed): RuntimeError, no effect
+                    v = op[1]
+                    if v < len(self.procs) and self.procs[v] is not None and self.procs[v].triggered:
+                        tgt = self.procs[v]
+                        before = (tgt._ok, tgt._value)
+                        try:
+                            if op[2] == "succeed":
+                                tgt.succeed("again")
+                            else:
+                                tgt.fail(Boom("again"))
+                            res = "ok"
+                        except RuntimeError:
+                            res = "RuntimeError"
+                        except Exception as e:
+                            res = type(e).__name__
+                        try:
+                            repr(tgt)
+                        except Exception as e:
+                            res += "+repr:" + type(e).__name__
+                        same = before[0] is tgt._ok and before[1] is tgt._value
+                        tape.append((env.now, "ptrigger", pid, opi, f"P{v}", res, same))
+                        if mon:
+                            mon.trigger_result(f"P{v}", True, res, same)
                     continue
                 elif kind == "chain":
                     src, dst = self.shared[op[1]], self.shared[op[2]]
